@@ -43,7 +43,7 @@ var (
 	psAddrI  = map[string]int{}
 	// lines that start with '/' and do not parse
 	slashBad = []string{"/", "/ip4/999.1.1.1/tcp/1", "/notaproto/x", "/ip4/1.2.3.4/tcp", "/ip4/1.2.3.4/tcp/99999",
-		"/p2p/notapeerid", "//", "/ip4/1.2.3.4/tcp/1 ", "/ip4/1.2.3.4/tcp/1/p2p/", "/dns4//tcp/x"}
+		"/p2p/notapeerid", "//", "/ip4/1.2.3.4/tcp/1 ", "/ip4/1.2.3.4/tcp/1/p2p/", "/dns4//tcp/x", "/ip4/1.2.3.4\r/tcp/1", "/\r"}
 	// lines that do not start with '/'
 	noSlash = []string{"# comment", " /ip4/1.2.3.4/tcp/1", "garbage", "ip4/1.2.3.4/tcp/1", "\t", "{\"json\":true}", " ", "\\"}
 )
@@ -145,6 +145,21 @@ func initTables() {
 		if _, err := ma.NewMultiaddr(s); err == nil || s[0] != '/' {
 			fatal("slashBad table: %q parses", s)
 		}
+		if _, err := ma.NewMultiaddr(s + "\r"); err == nil {
+			fatal("slashBad table: %q parses with a trailing CR", s)
+		}
+	}
+	// a stray "\r" left on a line (the code strips only one) spoils every table address
+	for i, m := range psAddrs {
+		if _, err := ma.NewMultiaddr(m.String() + "\r"); err == nil {
+			fatal("address table: %d parses with a trailing CR", i)
+		}
+		if _, err := ma.NewMultiaddr(m.String() + "/p2p/" + peer.Encode(psTab[i%nPs]) + "\r"); err == nil {
+			fatal("address table: %d with peer id parses with a trailing CR", i)
+		}
+	}
+	if _, err := ma.NewMultiaddr(longAddr + "\r"); err == nil {
+		fatal("long address parses with a trailing CR")
 	}
 	for _, s := range noSlash {
 		if len(s) > 0 && s[0] == '/' {
